@@ -17,5 +17,5 @@ TEXT = dict(
          "The seven accessors of the real crate are compared with the model and with lengths recomputed from serialization on every check.",
     design_ref="DESIGN.md section 6, C12",
     note="Trusted: as C01; usize overflow not modelled. Non-canonical in-memory transactions (e.g. an outpoint index >= 2^30 set by hand) are outside the theorems.",
-    technique="Coq proof (sums over lists + codec length law of C01, lia) + per-run model/implementation correspondence",
+    technique="Coq proof (sums over lists + codec length law of C01, lia) about the size accessors as TRANSLATED from the Rust source on every run (rust2coq: Gen/SrcSizes.v, proved equal to the model, with generated no-panic conditions) + per-run model/implementation correspondence",
 )
